@@ -1,6 +1,7 @@
 package engine
 
 import (
+	"go/constant"
 	"fmt"
 	"go/token"
 	"go/types"
@@ -23,6 +24,7 @@ type Engine struct {
 	prog     *ssa.Program
 	ssaPkgs  []*ssa.Package
 	fns      map[string]*ssa.Function // by full name
+	fnAlias  map[string]string        // "outer@<string>" -> full name of a function literal (see aliasNamedLiterals)
 	contracts map[string]*Contract    // by full function name
 	files    []*ContractFile
 	specFns  map[string]*SpecFn // pkgpath.name
@@ -47,7 +49,7 @@ func Load(repoDir, verifDir string) (*Engine, error) {
 
 // LoadPatterns loads the given package patterns from dir (used for /repo and for the self-test corpus).
 func LoadPatterns(repoDir, verifDir string, patterns []string, extraEnv []string) (*Engine, error) {
-	e := &Engine{RepoDir: repoDir, VerifDir: verifDir, fns: map[string]*ssa.Function{}, contracts: map[string]*Contract{},
+	e := &Engine{RepoDir: repoDir, VerifDir: verifDir, fns: map[string]*ssa.Function{}, fnAlias: map[string]string{}, contracts: map[string]*Contract{},
 		specFns: map[string]*SpecFn{}, lay: newLayouts(), fnInfos: map[*ssa.Function]*fnInfo{}, typeIDs: map[string]int{},
 		allPkgs: map[string]*packages.Package{}, typePkgs: map[string]*types.Package{}, readSets: map[string][]string{}, writesMemo: map[*ssa.Function]int{}}
 	cfg := &packages.Config{
@@ -139,6 +141,59 @@ func (e *Engine) addFn(f *ssa.Function) {
 	for _, a := range f.AnonFuncs {
 		e.addFn(a)
 	}
+	e.aliasNamedLiterals(f)
+}
+
+// aliasNamedLiterals gives function literals stored in a struct literal next to a constant string field a stable
+// name "outer@<string>" (e.g. the generator of the metric family named "eds_status_desired"), so that their contracts
+// do not depend on the position of the literal in the enclosing function.
+func (e *Engine) aliasNamedLiterals(f *ssa.Function) {
+	if len(f.AnonFuncs) == 0 {
+		return
+	}
+	strOf := map[ssa.Value]string{}
+	fnOf := map[ssa.Value]*ssa.Function{}
+	dup := map[string]bool{}
+	for _, b := range f.Blocks {
+		for _, ins := range b.Instrs {
+			st, ok := ins.(*ssa.Store)
+			if !ok {
+				continue
+			}
+			fa, ok := st.Addr.(*ssa.FieldAddr)
+			if !ok {
+				continue
+			}
+			switch v := st.Val.(type) {
+			case *ssa.Const:
+				if v.Value != nil && v.Value.Kind() == constant.String {
+					if _, seen := strOf[fa.X]; !seen {
+						strOf[fa.X] = constant.StringVal(v.Value)
+					}
+				}
+			case *ssa.Function:
+				if v.Parent() == f {
+					fnOf[fa.X] = v
+				}
+			case *ssa.MakeClosure:
+				if fn, ok := v.Fn.(*ssa.Function); ok && fn.Parent() == f {
+					fnOf[fa.X] = fn
+				}
+			}
+		}
+	}
+	for base, fn := range fnOf {
+		if s, ok := strOf[base]; ok {
+			k := f.String() + "@" + s
+			if _, exists := e.fnAlias[k]; exists {
+				dup[k] = true
+			}
+			e.fnAlias[k] = fn.String()
+		}
+	}
+	for k := range dup {
+		delete(e.fnAlias, k)
+	}
 }
 
 func (e *Engine) addContractFile(cf *ContractFile) error {
@@ -155,6 +210,10 @@ func (e *Engine) addContractFile(cf *ContractFile) error {
 			return fmt.Errorf("%s: duplicate contract for %s", cf.Path, name)
 		}
 		if !con.External {
+			if real, ok := e.fnAlias[name]; ok {
+				con.Display = name
+				name = real
+			}
 			if _, ok := e.fns[name]; !ok {
 				return fmt.Errorf("%s: contract for unknown function %s", cf.Path, name)
 			}
